@@ -20,11 +20,12 @@ res["suite_with_patch"] = r.stdout.strip().split("\n")
 suite_ok = all(" 0 failed" in l for l in res["suite_with_patch"]) and any("2152 passed" in l for l in res["suite_with_patch"])
 os.makedirs(os.path.dirname(dst_demo), exist_ok=True)
 shutil.copy(demo, dst_demo)
-r = sh("cargo test -p sas-lexer --test seed_demo --offline 2>&1 | grep -E '^test result|panicked' | head -5")
+feat = os.environ.get("SEED_FEATURES", "")
+r = sh(f"cargo test -p sas-lexer {feat} --test seed_demo --offline 2>&1 | grep -E '^test result|panicked' | head -5")
 res["demo_with_patch"] = r.stdout.strip()
 demo_fails = "FAILED" in r.stdout or "failed" in r.stdout and " 0 failed" not in r.stdout
 sh(f"git apply -R {patch}")
-r = sh("cargo test -p sas-lexer --test seed_demo --offline 2>&1 | grep -E '^test result' | head -3")
+r = sh(f"cargo test -p sas-lexer {feat} --test seed_demo --offline 2>&1 | grep -E '^test result' | head -3")
 res["demo_without_patch"] = r.stdout.strip()
 demo_passes = "test result: ok" in r.stdout
 os.remove(dst_demo)
